@@ -546,13 +546,21 @@ package mux
 //@ fn Hosts.Add
 //@   requires hs != nil && hs.tree != nil && treeOK(hs.tree) && allSafe() && sepOK() && lockFree(hs.tree)
 //@   maypanic
-//@   atcall tree.Tree.Add [C14] lower: arg0 == hs.tree && arg1 == pure0("strings.ToLower", domain[rangeindex + 1]) && one(arg4, "GET")
+//@   atcall tree.Tree.Add [C14] lower: arg0 == hs.tree && arg1 == pure0("mux.lowerDomain", domain[rangeindex + 1]) && one(arg4, "GET")
 //@   inv 1 bound: -1 <= rangeindex && rangeindex < len(domain)
 //
 //@ fn Hosts.Delete
 //@   requires hs != nil && hs.tree != nil && treeOK(hs.tree) && allSafe() && sepOK() && lockFree(hs.tree)
-//@   callsonly [C14] strings.ToLower, tree.Tree.Remove
-//@   atcall tree.Tree.Remove [C14] lower: arg0 == hs.tree && arg1 == pure0("strings.ToLower", domain) && len(arg2) == 0
+//@   callsonly [C14] mux.lowerDomain, tree.Tree.Remove
+//@   atcall tree.Tree.Remove [C14] lower: arg0 == hs.tree && arg1 == pure0("mux.lowerDomain", domain) && len(arg2) == 0
+
+// lowerDomain: a deterministic function of the domain (text outside {...} lower-cased, text inside kept). Only its
+// safety and determinism are under contract; what it computes is not (the builder it writes to is a local struct
+// value, whose ghost text the contract language cannot name).
+//@ fn lowerDomain
+//@   pure
+//@   nopanic
+//@   inv 1 [C05] scan: 0 <= i && 0 <= start && start <= i && i <= len(domain) && depth >= 0 && depth <= i
 
 // ---------------------------------------------------------------- group.go (C13, C16, C07)
 
